@@ -2,7 +2,7 @@ package gen
 
 import "math/rand"
 
-func leafV(i int) M  { return M{"op": "v", "i": i, "kids": []M{}} }
+func leafV(i int) M     { return M{"op": "v", "i": i, "kids": []M{}} }
 func konst(op string) M { return M{"op": op, "i": 0, "kids": []M{}} }
 func node(op string, kids ...M) M {
 	if kids == nil {
@@ -56,9 +56,22 @@ func RandFormula(r *rand.Rand, k, depth, pol, uniqPolicy, maxUniq int) M {
 	}
 }
 
+// UniqAll returns an exactly-one group over a random subset (at least k-2) of the k names.
+func UniqAll(r *rand.Rand, k int) M {
+	sz := k - r.Intn(3)
+	if sz < 1 {
+		sz = 1
+	}
+	kids := []M{}
+	for _, v := range r.Perm(k)[:sz] {
+		kids = append(kids, leafV(v+1))
+	}
+	return node("uniq", kids...)
+}
+
 // Names returns k distinct identifiers.
 func Names(k int) []string {
-	all := []string{"a", "b", "c", "d", "e", "f", "g", "h"}
+	all := []string{"a", "b", "c", "d", "e", "f", "g", "h", "i", "j"}
 	return all[:k]
 }
 
